@@ -34,6 +34,7 @@ import AutosarVerif.Lemmas.Reachable
 import AutosarVerif.Lemmas.IndexReach
 import AutosarVerif.Lemmas.StepX
 import AutosarVerif.Lemmas.Iter
+import AutosarVerif.Lemmas.MoveOp
 
 namespace AV.C03
 open AV.W AV.W.Items
@@ -120,5 +121,13 @@ theorem C03_no_element_shared_reachable (S : Spec) (V : Env) (vOk : Nat) (rootAt
   intro m hm
   have h := run_winv S V vOk rootAttrs hH ops hops m hm
   exact ⟨h.ids, h.bound⟩
+
+
+/-! ### added in the third session: statements proved in the lemma files, restated here by name
+(`type_of%` keeps the statement identical to the lemma; the signature is quoted in the comment) -/
+
+/-- `move_element_here` inside one model keeps the forest well-formed (also on its one partial-failure branch)
+`theorem opMove_wf (w : World) (p x : Nat) (pos? : Option Nat) (hw : w.wf) : (opMove S V w p x pos?).1.wf` -/
+theorem C03_move_keeps_tree : type_of% @AV.W.opMove_wf := @AV.W.opMove_wf
 
 end AV.C03
